@@ -102,7 +102,7 @@ def check(prop, tier, seed):
     cov['exhaustive_note'] = 'every script over {F,S,D} of length <= 5, lazy and eager, 5 calls each, is model checked and replayed on the real Channel'
     return simple.finish(prop, tier, seed, verdict, cov, mc, t0,
                          ['calls are issued at quiescent points (1 ms of virtual time after every drop and call)',
-                          'a call that ran into a dropped connection before the client noticed may fail once with any status',
+                          'scripted drops are followed by a quiescence barrier, so the client has noticed the drop before the next call (no slack for unnoticed drops)',
                           'how often the connector is invoked per call is not constrained by the Contract'],
                          'tlc MC_Reconnect_*.cfg, Gen_Reconnect_*.cfg; tlapm ReconnectProof.tla; vh reconnect; tlc Trace_Reconnect.cfg; tlc Trace_ReconnectMech_*.cfg')
 
